@@ -5,7 +5,7 @@ from .. import core, gen
 from . import vcdfam
 
 PID = "C18"
-LEVEL = "translation_validation"
+LEVEL = "proof"
 PYDIR = os.path.join(core.CACHE, "run", "pywellen")
 PYTARGET = os.path.join(core.CACHE, "target-py")
 RUNNER = "env PYWELLEN_DIR=%s python3 %s" % (PYDIR, os.path.join(core.VERIF, "pyharness", "run_py.py"))
